@@ -201,6 +201,7 @@ sLUMemInit(fact_t fact, void *work, int_t lwork, int m, int n, int_t annz,
     float   *ucol;
     int_t    *usub, *xusub;
     int_t    nzlmax, nzumax, nzlumax;
+    int_t    top1_factors = 0; /* stack top before the four factor arrays */
     
     iword     = sizeof(int);
     dword     = sizeof(float);
@@ -243,6 +244,7 @@ sLUMemInit(fact_t fact, void *work, int_t lwork, int m, int n, int_t annz,
 	    xlusup = suser_malloc((n+1) * iword, HEAD, Glu);
 	    xusub  = suser_malloc((n+1) * iword, HEAD, Glu);
 	}
+	if ( Glu->MemModel == USER ) top1_factors = Glu->stack.top1;
 
 	lusup = (float *) sexpand( &nzlumax, LUSUP, 0, 0, Glu );
 	ucol  = (float *) sexpand( &nzumax, UCOL, 0, 0, Glu );
@@ -256,8 +258,9 @@ sLUMemInit(fact_t fact, void *work, int_t lwork, int m, int n, int_t annz,
 		SUPERLU_FREE(lsub); 
 		SUPERLU_FREE(usub);
 	    } else {
-		suser_free((nzlumax+nzumax)*dword+(nzlmax+nzumax)*iword,
-                            HEAD, Glu);
+		/* Give back what the four requests actually obtained; some
+		   of them may have failed and taken nothing. */
+		suser_free(Glu->stack.top1 - top1_factors, HEAD, Glu);
 	    }
 	    nzlumax /= 2;
 	    nzumax /= 2;
